@@ -173,7 +173,16 @@ func replayTrCase(env *trEnv, c *trCase) (diff string) {
 	t.Dialer.DialFunc = func(ctx context.Context, network, addr string, tc *tls.Config) (*tls.Conn, error) {
 		mu.Lock()
 		dials = append(dials, Ev{"addr": addr, "sn": tc.ServerName})
+		nth := len(dials)
 		mu.Unlock()
+		if reverseWire && nth%2 == 1 {
+			// the server rejects ECH and hands out retry configs: the attempt goes on with them - same server name
+			return nil, &tls.ECHRejectionError{RetryConfigList: []byte{0, 1, 0}}
+		}
+		if tc.EncryptedClientHelloConfigList != nil { // (the test server does not speak ECH)
+			tc = tc.Clone()
+			tc.EncryptedClientHelloConfigList = nil
+		}
 		d := &tls.Dialer{Config: tc}
 		conn, err := d.DialContext(ctx, "tcp", env.addr)
 		if err != nil {
@@ -217,7 +226,11 @@ func replayTrCase(env *trEnv, c *trCase) (diff string) {
 			ranBefore, stub.dials = stub.ran, nil
 			stub.mu.Unlock()
 		}
+		hostBefore, urlBefore := req.Host, req.URL.String()
 		resp, err := t.RoundTrip(req)
+		if req.Host != hostBefore || req.URL.String() != urlBefore {
+			return fmt.Sprintf("request %d: RoundTrip modified the caller's request (Host %q -> %q, URL %s -> %s)", k+1, hostBefore, req.Host, urlBefore, req.URL)
+		}
 		_ = client
 		where := fmt.Sprintf("request %d (%s://%s)", k+1, u.Scheme, authority)
 		body := ""
